@@ -137,8 +137,9 @@ Definition mk_field (items : list item) : rfield :=
 (* sorting relations / entries of the abstract field by the order of their content *)
 Definition rel_cmp (a b : rel) : comparison := wrel_cmp (wrel_of a) (wrel_of b).
 Definition rels_cmp (a b : list rel) : comparison := wentry_cmp (map wrel_of a) (map wrel_of b).
-Definition subst_cmp (a b : str * list str) : comparison :=
-  str_cmp (subst_text (fst a) (snd a)) (subst_text (fst b) (snd b)).
+Definition subst_text_of (s : str * list str) : str := subst_text (fst s) (snd s).     (* "${seg:seg}" *)
+Definition subst_node_of (s : str * list str) : rtree := subst_node (fst s) (snd s).
+Definition subst_cmp (a b : str * list str) : comparison := str_cmp (subst_text_of a) (subst_text_of b).
 Definition sorted_rels (f : rfield) : list (list rel) :=
   psort rels_cmp (map (psort rel_cmp) (field_rels f)).
 Definition sorted_substs (f : rfield) : list (str * list str) := psort subst_cmp (field_substs f).
